@@ -104,6 +104,8 @@ CaseResult run_case(Tape &t, long sweep)
   }
   plan.nonblocking = t.chance(1, 4);
   if (plan.eff[0] == sc::T_PIPE && t.chance(1, 5)) plan.input_size = (long) t.range(0, 2000);
+  // a path for stdin that does not exist yet (derived from the draws above so that the sweep's cases keep their tapes)
+  if (plan.eff[0] == sc::T_PATH && !plan.unset[0] && (plan.place[1] + plan.place[2] + (int) plan.nonblocking) % 2 == 1) plan.in_path_fresh = true;
 
   // ---- arrange the parent's 0-2 -----------------------------------------------
   FILE *std[3] = { stdin, stdout, stderr };
@@ -140,7 +142,7 @@ CaseResult run_case(Tape &t, long sweep)
   res.nontrivial = mask != 0 || user_low || plan.eff[2] == sc::T_STDOUT || nonpipe_kinds >= 2;
   res.hash = mix(mix((uint64_t) plan.eff[0] | (uint64_t) plan.eff[1] << 4 | (uint64_t) plan.eff[2] << 8 | (uint64_t) mask << 12 | (uint64_t) variant << 16 | (uint64_t) applied << 20,
                      (uint64_t) plan.place[0] | (uint64_t) plan.place[1] << 1 | (uint64_t) plan.place[2] << 2 | (uint64_t) (plan.force_fd[0] + 1) << 4 | (uint64_t) (plan.force_fd[1] + 1) << 8 | (uint64_t) (plan.force_fd[2] + 1) << 12),
-                 (uint64_t) fclose_instead | (uint64_t) plan.nonblocking << 1 | (uint64_t) (plan.input_size >= 0) << 2);
+                 (uint64_t) fclose_instead | (uint64_t) plan.nonblocking << 1 | (uint64_t) (plan.input_size >= 0) << 2 | (uint64_t) plan.in_path_fresh << 3);
   if (mask) res.cls("parent-fd-closed");
   if (mask == 7) res.cls("parent-0-1-2-all-closed");
   if (user_low) res.cls("user-object-on-0-2");
